@@ -757,6 +757,15 @@ func (c *Connection) write(ctx context.Context, msg Message) error {
 		if req, ok := msg.(*Request); ok && !req.IsCall() && s.outgoingNotifications > 0 {
 			return
 		}
+		// Also allow the responses of handlers that were already running when
+		// Close was called: Close lets them run to completion and keeps the
+		// transport open until they have returned, and the peer is waiting for
+		// their answers (possibly in a handler of its own that one of our
+		// outgoing calls is waiting for: dropping the answer would leave both
+		// sides waiting for each other).
+		if _, ok := msg.(*Response); ok && s.connClosing && s.readErr == nil && s.writeErr == nil {
+			return
+		}
 		err = s.shuttingDown(ErrServerClosing)
 	})
 	if err == nil {
